@@ -10,6 +10,7 @@ import (
 	"fmt"
 	"os"
 	"path/filepath"
+	"regexp"
 	"sort"
 	"strings"
 
@@ -154,6 +155,74 @@ func (d *doc) hidden() []int {
 	}
 	walk((*html.Node)(d.root), false)
 	return out
+}
+
+// the element tree of the document as a term of type Box.ElementGen.elem: per element its index, "display is
+// none" and "float is footnote" (same sources as hidden(): pristine computed styles, style attribute)
+func (d *doc) elemTerm() string {
+	var walk func(nd *html.Node) string
+	walk = func(nd *html.Node) string {
+		none, fnote := false, false
+		if st := d.sf.Get((*utils.HTMLNode)(nd), ""); st != nil {
+			none = st.GetDisplay() == (pr.Display{"none"})
+			fnote = st.GetFloat() == "footnote"
+		}
+		if declaredDisplay(nd) == "none" {
+			none = true
+		}
+		var kids []string
+		for c := nd.FirstChild; c != nil; c = c.NextSibling {
+			if c.Type == html.ElementNode {
+				kids = append(kids, walk(c))
+			}
+		}
+		return fmt.Sprintf("(El %s %s %s [%s])", vlib.Z(d.index[nd]), vlib.Bool(none), vlib.Bool(fnote), strings.Join(kids, ";"))
+	}
+	return walk((*html.Node)(d.root))
+}
+
+var pseudoRuleRe = regexp.MustCompile(`#(n\d+)::(before|after)\{([^}]*)\}`)
+
+// the ::before / ::after pseudo-elements whose display is none: pristine computed styles, or a rule
+// `#id::before{...display:none...}` of the document's style sheet (the generated sheets have one rule per pseudo-element)
+func (d *doc) hiddenPseudo(src string) (terms []string, desc []string) {
+	seen := map[string]bool{}
+	add := func(idx int, ps string) {
+		t := fmt.Sprintf("(HP %s %d)", vlib.Z(idx), pseudoCode(ps))
+		if !seen[t] {
+			seen[t] = true
+			terms = append(terms, t)
+			desc = append(desc, fmt.Sprintf("%d::%s", idx, ps))
+		}
+	}
+	byID := map[string]int{}
+	for nd, idx := range d.index {
+		for _, a := range nd.Attr {
+			if a.Key == "id" {
+				byID[a.Val] = idx
+			}
+		}
+		for _, ps := range []string{"before", "after"} {
+			if st := d.sf.Get((*utils.HTMLNode)(nd), ps); st != nil && st.GetDisplay() == (pr.Display{"none"}) {
+				add(idx, ps)
+			}
+		}
+	}
+	for _, m := range pseudoRuleRe.FindAllStringSubmatch(src, -1) {
+		disp := ""
+		for _, decl := range strings.Split(m[3], ";") {
+			kv := strings.SplitN(decl, ":", 2)
+			if len(kv) == 2 && strings.TrimSpace(kv[0]) == "display" {
+				disp = strings.TrimSpace(kv[1])
+			}
+		}
+		if idx, ok := byID[m[1]]; ok && disp == "none" {
+			add(idx, m[2])
+		}
+	}
+	sort.Strings(terms)
+	sort.Strings(desc)
+	return terms, desc
 }
 
 // ---------------------------------------------------------------- dumps
@@ -720,6 +789,8 @@ func runDoc(src string, kind string, tags []string) (vlib.Case, bool) {
 		return vlib.Case{}, false
 	}
 	hidden := dH.hidden() // before any box generation
+	docTerm := dH.elemTerm()
+	hpTerms, hpDesc := dH.hiddenPseudo(src)
 	dA, err := parseDoc(src)
 	if err != nil {
 		return vlib.Case{}, false
@@ -777,17 +848,9 @@ func runDoc(src string, kind string, tags []string) (vlib.Case, bool) {
 		}
 	}
 	sort.Strings(tags)
-	hid := make([]string, len(hidden))
-	for i, h := range hidden {
-		hid[i] = vlib.Z(h)
-	}
-	hidTerm := "[]"
-	if len(hid) > 0 {
-		hidTerm = "[" + strings.Join(hid, ";") + "]%Z"
-	}
-	coq := fmt.Sprintf("CTree %s %s %d %s [%s]", inTerm, hidTerm, status, outTerm, strings.Join(fnTerms, ";"))
+	coq := fmt.Sprintf("CTree %s %s %d %s [%s] [%s]", inTerm, docTerm, status, outTerm, strings.Join(fnTerms, ";"), strings.Join(hpTerms, ";"))
 	return vlib.Case{Kind: kind, Coq: coq,
-		Desc:       map[string]interface{}{"html": src, "before": dpIn.desc.String(), "after": dpOut.desc.String(), "footnotes": dpFn.desc.String(), "hidden_elements": hidden},
+		Desc:       map[string]interface{}{"html": src, "before": dpIn.desc.String(), "after": dpOut.desc.String(), "footnotes": dpFn.desc.String(), "hidden_elements": hidden, "hidden_pseudo_elements": hpDesc},
 		Tags:       tags,
 		Nontrivial: dpIn.nodes > 3,
 	}, true
